@@ -24,7 +24,8 @@ TRange == IsEvent("range") /\ Tr[l].unit /\ Tr[l].facing /\ Tr[l].curvRange
 \* rotating the cloud by a signed permutation rotates the normals by it
 TEquiv == /\ IsEvent("equiv")
           /\ LET t == Tr[l] IN (\A i \in 1..Len(t.outs) : (t.gap[i] /\ t.gap2[i]) => t.outs2[i] = MatVec(t.Q, t.outs[i])) = TRUE
-TraceNext == TReset \/ TPlanar \/ TPatches \/ TRange \/ TEquiv
+TLeastVar == IsEvent("leastvar") /\ LeastVarOK(Tr[l])
+TraceNext == TLeastVar \/ TReset \/ TPlanar \/ TPatches \/ TRange \/ TEquiv
 TraceSpec == TraceInit /\ [][TraceNext]_l
 TraceAccepted == TLCGet("stats").diameter - 1 = Len(Tr)
 =============================================================================
